@@ -59,6 +59,7 @@ type Case struct {
 	Cast  string
 	Lines [][]exact.Pt // line strings in 1/1000 units
 	Rot   bool         // both operands rotated by 30 degrees and scaled by 1.7 (a similarity: lengths scale by 1.7)
+	Pow   int          `json:",omitempty"` // both operands scaled exactly by 2^Pow (lengths scale by 2^Pow)
 }
 
 func region(s shp) exact.Region {
@@ -320,15 +321,54 @@ func runCase(c Case) (string, string) {
 	}
 	pg := cast(s, c.Cast)
 	pt := f
+	unit := 1.0 // the image of a unit length: every tolerance is relative to it
 	if c.Rot {
 		pg = rotGeom(pg)
 		pt = func(p exact.Pt) geom.Point { return rot(f(p)) }
 		want *= simScale
+		unit = simScale
 		ffr := make(exact.FRegion, len(fr))
 		for i, ring := range fr {
 			for _, v := range ring {
 				q := rot(geom.Point{X: v.X, Y: v.Y})
 				ffr[i] = append(ffr[i], exact.FPt{X: q.X, Y: q.Y})
+			}
+		}
+		fr = ffr
+	}
+	if c.Pow != 0 {
+		k := math.Ldexp(1, c.Pow)
+		sc := func(q geom.Point) geom.Point { return geom.Point{X: q.X * k, Y: q.Y * k} }
+		switch t := pg.(type) {
+		case *geom.Bounds:
+			pg = &geom.Bounds{Min: sc(t.Min), Max: sc(t.Max)}
+		default:
+			var mp geom.MultiPolygon
+			for _, p := range pg.Polygons() {
+				var q geom.Polygon
+				for _, r := range p {
+					var o geom.Path
+					for _, v := range r {
+						o = append(o, sc(v))
+					}
+					q = append(q, o)
+				}
+				mp = append(mp, q)
+			}
+			if _, ok := pg.(geom.Polygon); ok {
+				pg = mp[0]
+			} else {
+				pg = mp
+			}
+		}
+		prev := pt
+		pt = func(p exact.Pt) geom.Point { return sc(prev(p)) }
+		want *= k
+		unit *= k
+		ffr := make(exact.FRegion, len(fr))
+		for i, ring := range fr {
+			for _, v := range ring {
+				ffr[i] = append(ffr[i], exact.FPt{X: v.X * k, Y: v.Y * k})
 			}
 		}
 		fr = ffr
@@ -372,18 +412,18 @@ func runCase(c Case) (string, string) {
 	}
 	got := out.Length()
 	empty := len(out) == 0 || got == 0
-	if (want < 1e-12) != empty {
+	if (want < 1e-12*unit) != empty {
 		return "emptiness-wrong", fmt.Sprintf("result %v, reference inside length %g", out, want)
 	}
-	if math.Abs(got-want) > 1e-9*math.Max(1, want) {
+	if math.Abs(got-want) > 1e-9*math.Max(unit, want) {
 		return "length-differs", fmt.Sprintf("result %v length %.12g, reference %.12g", out, got, want)
 	}
 	for _, l := range out {
 		for _, v := range l {
-			if distToLine(v, c.Lines, pt) > 1e-9*simScale {
+			if distToLine(v, c.Lines, pt) > 1e-9*math.Max(unit, simScale*unit) {
 				return "vertex-off-line", fmt.Sprintf("%v in %v", v, out)
 			}
-			if !exact.InsideF(fr, exact.FPt{X: v.X, Y: v.Y}) && distToBoundary(v, fr) > 1e-9*simScale {
+			if !exact.InsideF(fr, exact.FPt{X: v.X, Y: v.Y}) && distToBoundary(v, fr) > 1e-9*math.Max(unit, simScale*unit) {
 				return "vertex-outside-polygon", fmt.Sprintf("%v in %v", v, out)
 			}
 		}
@@ -432,7 +472,7 @@ func main() {
 		return
 	}
 	rep = report.New("C14", tier, "model_checking")
-	rep.Rule = "E1: 15 polygonal shapes (boxes, triangles, L, C, pentagon, holes in both windings and closed spelling, multi-polygons, island in hole) as Polygon / MultiPolygon / *Bounds x every simple open polyline of 2 and 3 vertices over the lattice (i+.37, j+.41), i,j in {-1,1,3,5,7} (thorough: -1..7), plus two-member multi-line strings; x-monotone zigzag lines of 63..200 vertices; every simple polyline of 4 and 5 vertices over the coarse lattice {-1,3,7}^2 (detours outside the bounding box; 5 vertices against 6 shapes, thorough all); the same pairs again with both operands rotated by 30 degrees and scaled by 1.7 (irrational coordinates, lengths scale by 1.7); pairs not in general position (exact test) or with a piece shorter than 1e-7 are skipped and counted. Oracle: reference inside length from exact crossing tests + even-odd classification of every piece; Length(result) equal (rel 1e-9); every result vertex within 1e-9 of the line and inside or on the polygon; empty iff the reference length is 0; the polygon argument is not modified; the same clip twice more with both operands cut from flat vertex buffers (same result, buffers not written, first result intact); clip sequences on one shared polygon value, also after the value has been moved in place (history). Non-trivial = lines partly inside."
+	rep.Rule = "E1: 15 polygonal shapes (boxes, triangles, L, C, pentagon, holes in both windings and closed spelling, multi-polygons, island in hole) as Polygon / MultiPolygon / *Bounds x every simple open polyline of 2 and 3 vertices over the lattice (i+.37, j+.41), i,j in {-1,1,3,5,7} (thorough: -1..7), plus two-member multi-line strings; x-monotone zigzag lines of 63..200 vertices; every simple polyline of 4 and 5 vertices over the coarse lattice {-1,3,7}^2 (detours outside the bounding box; 5 vertices against 6 shapes, thorough all); the same pairs again with both operands rotated by 30 degrees and scaled by 1.7 (irrational coordinates, lengths scale by 1.7); a quarter of the pairs again scaled exactly by 2^-20 and 2^40 (every tolerance relative to the scale); pairs not in general position (exact test) or with a piece shorter than 1e-7 are skipped and counted. Oracle: reference inside length from exact crossing tests + even-odd classification of every piece; Length(result) equal (rel 1e-9); every result vertex within 1e-9 of the line and inside or on the polygon; empty iff the reference length is 0; the polygon argument is not modified; the same clip twice more with both operands cut from flat vertex buffers (same result, buffers not written, first result intact); clip sequences on one shared polygon value, also after the value has been moved in place (history). Non-trivial = lines partly inside."
 	var lattice []exact.Pt
 	step := int64(2)
 	if tier == "thorough" {
@@ -479,6 +519,27 @@ func main() {
 					cr.Rot = true
 					if sym, det := runCase(cr); sym != "" {
 						rep.Violation(fmt.Sprintf("LineString.Clip|%s|%s|rotated|%s", ct, s.Name, sym), map[string]interface{}{"case": cr, "observed": det})
+					}
+				}
+				// coordinates of about 1e-10 (2^-34): the external sweep compares a cross
+				// product with 1e-21 times a product of *lengths*, which makes every pair
+				// of segments "parallel" below about 1e-8; one known class (see
+				// known_findings.json), whatever the symptom
+				if i%16 == 1 {
+					cp := c
+					cp.Pow = -34
+					if sym, det := runCase(cp); sym != "" {
+						rep.Violation("external:polyclip-go|coordinates-below-1e-8|wrong-result", map[string]interface{}{"case": cp, "symptom": sym, "observed": det})
+					}
+				}
+				// exact scalings by 2^-20 and 2^40 (lengths of 1e-6 and 1e12)
+				if i%4 == 1 {
+					for _, pw := range []int{-20, 40} {
+						cp := c
+						cp.Pow = pw
+						if sym, det := runCase(cp); sym != "" {
+							rep.Violation(fmt.Sprintf("LineString.Clip|%s|%s|scaled-2^%d|%s", ct, s.Name, pw, sym), map[string]interface{}{"case": cp, "observed": det})
+						}
 					}
 				}
 				// the same polygon value clipped twice in a row (argument reuse)
